@@ -323,6 +323,34 @@ theorem C14_block_rt_nocheck (c : Coin) (blk : Block) (hwf : blk.WF) (rest : Byt
 
 end blocks
 
+/-! ## the header-hash cache is transparent -/
+
+section cache
+open Pycoin.Wire
+
+/-- `hash()` of a `Block` object in ANY state of its attributes (whatever an earlier `hash()` left in the cache
+attribute) is the double SHA-256 of the header it streams now.  Holds because `hash()` tests a name under which
+nothing is ever stored (re-checked against the generated names on every build). -/
+theorem C14_block_hash_transparent (o : BlockObj) : (o.hash).map (·.1) = Block.hash o.hdr := by
+  have hname : (Gen.Messages.block_hash_hasattr == Gen.Messages.block_hash_attr) = false := by decide +kernel
+  unfold BlockObj.hash BlockObj.hasattrHash
+  simp only [hname, Bool.false_and, Bool.not_false, if_true]
+  cases Block.hash o.hdr <;> rfl
+
+/-- C14.block_id_after_mutation: after any sequence of `hash()`/`id()`/`as_bin()`/`stream_header()` calls, `set_nonce`,
+direct reassignment of any header attribute and `as_blockheader()`, `hash()` is the double SHA-256 of the 80 bytes
+`stream_header()` emits at that moment and `id()` its reversed hex -/
+theorem C14_block_id_after_mutation (o : BlockObj) (steps : List ObjStep) :
+    ((o.run steps).hash).map (·.1) = (Block.streamHeader (o.run steps).hdr).map Pycoin.Hash.dsha256 ∧
+    ((o.run steps).hash).map (fun r => Tx.b2hRev r.1) = Block.id (o.run steps).hdr := by
+  have h := C14_block_hash_transparent (o.run steps)
+  refine ⟨h, ?_⟩
+  unfold Block.id
+  rw [← h]
+  cases (o.run steps).hash <;> rfl
+
+end cache
+
 /-! ## non-vacuity: the hypotheses are satisfiable, and the statements are exercised on real double-SHA256 (evaluated) -/
 
 example : NoEqualSiblings (fun x => x) (fun i => [UInt8.ofNat i]) 2 := by
